@@ -12,13 +12,14 @@ import (
 const (
 	FlagRowKeyConcat  = "rowkey-concat"   // two distinct PK tuples whose %v concatenations are equal are in play
 	FlagCIKey         = "ci-key"          // a key conflict decided by the collation that byte comparison does not see (or vice versa)
-	FlagPrefixBytes   = "prefix-bytes"    // a prefix key where n bytes and n characters give different decisions
+	FlagPrefixBytes   = "prefix-bytes"    // a prefix key compared on a value whose first n bytes and first n characters differ
 	FlagDeletedUnique = "deleted-unique"  // a row whose unique-key values equal those of a row version deleted earlier in the same statement (PK tables)
 	FlagReplaceMulti  = "replace-multi"   // a REPLACE row displaced two or more rows (affected-rows count)
 	FlagCINoopUpdate  = "ci-noop-update"  // an UPDATE/ODKU changes a row only within collation-equal strings
 	FlagAddUniqueLeft = "add-unique-left" // ALTER TABLE ADD UNIQUE must fail on prefix-duplicates only (the engine's pre-check compares full values, the index is created and the later failure does not remove it)
 	FlagAddUniqueType = "add-unique-type" // ALTER TABLE ADD UNIQUE: the engine's duplicate pre-check hashes the i-th key value with the type of the table's i-th column
 	FlagKeylessCI     = "keyless-ci-rows" // table without primary key: two rows in play differ only within collation-equal strings
+	FlagOdkuKeyless   = "odku-keyless"    // INSERT .. ON DUPLICATE KEY UPDATE updates a row of a table without primary key (the stored row version shares memory with later row versions)
 )
 
 // Env holds what the interpreter needs beyond the tables.
@@ -171,9 +172,13 @@ func (e *Env) keyEq(t *Table, k *Key, a, b Row) (eq, buggyEq, ciDiff, prefixDiff
 			if colEq != (ca == cb) {
 				ciDiff = true
 			}
-			if (ca == cb) != bugEq {
-				prefixDiff = true
-			}
+		}
+		// region of the prefix-bytes finding: a multi-byte character reaches into the first p
+		// bytes of either value, i.e. cutting by bytes and cutting by characters differ. (Wider
+		// than "the byte-wise decisions differ": once key strings are compared under their
+		// collation but still cut by bytes, the half character takes part in that comparison.)
+		if p > 0 && (bytePrefix(va.S, p) != ca || bytePrefix(vb.S, p) != cb) {
+			prefixDiff = true
 		}
 	}
 	return eq, buggyEq, ciDiff, prefixDiff
@@ -258,13 +263,11 @@ func (e *Env) conflicts(t *Table, keys []Key, w []Row, cand Row, skip int, delet
 				continue
 			}
 			eq, bug, ci, pre := e.keyEq(t, k, r, cand)
-			if eq != bug {
-				if ci {
-					o.flag(FlagCIKey)
-				}
-				if pre {
-					o.flag(FlagPrefixBytes)
-				}
+			if eq != bug && ci {
+				o.flag(FlagCIKey)
+			}
+			if pre {
+				o.flag(FlagPrefixBytes)
 			}
 			if eq {
 				found = true
@@ -675,13 +678,11 @@ func (e *Env) Exec(db []*Table, s *Stmt, nd *ND) *Outcome {
 		for i := range w {
 			for j := i + 1; j < len(w); j++ {
 				eq, bug, ci, pre := e.keyEq(t, &k, w[i], w[j])
-				if eq != bug {
-					if pre {
-						o.flag(FlagPrefixBytes)
-					}
-					if ci || !pre {
-						o.flag(FlagCIKey)
-					}
+				if pre {
+					o.flag(FlagPrefixBytes)
+				}
+				if eq != bug && (ci || !pre) {
+					o.flag(FlagCIKey)
 				}
 				if eq {
 					o.Collisions++
@@ -912,6 +913,13 @@ func (e *Env) Exec(db []*Table, s *Stmt, nd *ND) *Outcome {
 			i := cand[nd.Choose(len(cand))]
 			old := w[i]
 			nw := applyAssigns(s.Odku, old, n)
+			if t.PK() == nil {
+				// The engine stores the updated row as a slice with spare capacity
+				// (insertIter.handleOnDuplicateKeyUpdate: updateAcc[:len(oldRow)]); rows that later
+				// UPDATEs build from it live in that spare capacity, and on a keyless table both can
+				// stay stored: a later statement then overwrites one stored row with another.
+				o.flag(FlagOdkuKeyless)
+			}
 			// the engine's ODKU path issues Update(old, new) (= delete + insert in the edit
 			// accumulator) even when nothing changes, so the old row counts as "deleted in
 			// this statement" for the region of the deleted-unique finding
